@@ -124,7 +124,7 @@ func ParseRedeem(data []byte, lockredeemAbi string) (req *RedeemRequest, err err
 		return nil, err
 	}
 	ss := strings.Split(hex.EncodeToString(data), methodSignature)
-	if len(ss) == 0 {
+	if len(ss) < 2 {
 		return nil, errors.New("Transaction does not have the required input data")
 	}
 	if len(ss[1]) < 64 {
